@@ -42,11 +42,10 @@ def setup():
         elif line.strip():
             labels.setdefault((base, i), None)
     _S["labels"] = labels
-    try:
-        from harness.vlib import bl
-        _S["core"] = {n: bl.core(n) for n in ("deref", "realized?", "deliver", "force")}
-    except Exception:
-        _S["core"] = None
+    # core.lpy's deref / realized? / deliver are one-line wrappers over runtime.deref,
+    # .-is-realized and .deliver: call those directly (no 12 s bootstrap of basilisp.core)
+    from basilisp.lang import runtime
+    _S["core"] = {"deref": runtime.deref, "realized?": lambda o: o.is_realized}
 
 
 def _points(filename, lineno, funcname):
@@ -121,7 +120,7 @@ class DelayBuild:
                 sched.op_begin()
                 try:
                     if o == "deref":
-                        v = d.deref()
+                        v = core["deref"](d) if t % 2 else d.deref()
                         r = {"val": v} if type(v) is int else "err:value"
                     elif o == "realized":
                         r = {"bool": bool(d.is_realized)}
@@ -158,7 +157,7 @@ class PromiseBuild:
         self.hist = []
 
     def body(self, t):
-        p = self.p
+        p, core = self.p, _S["core"]
 
         def run():
             for i, o in enumerate(self.cfg["threads"][t]):
@@ -170,7 +169,10 @@ class PromiseBuild:
                         r = {"ret": p.deliver(o["v"])}
                     elif k == "deref":
                         tm = o.get("timed")
-                        r = {"ret": p.deref() if tm is None else p.deref(0.05, tm["tv"])}
+                        if t % 2:     # through runtime.deref (what core/deref calls): timeout in ms
+                            r = {"ret": core["deref"](p) if tm is None else core["deref"](p, 50, tm["tv"])}
+                        else:
+                            r = {"ret": p.deref() if tm is None else p.deref(0.05, tm["tv"])}
                     elif k == "realized":
                         r = {"bool": bool(p.is_realized)}
                     else:
